@@ -149,7 +149,12 @@ def value_program(cs):
     top, body = [], []
     for j, c in enumerate(cs):
         t, l = c["t"], src_lit(c)
-        if c["pos"] == "let":
+        if c["pos"] == "let" and c.get("twice"):
+            # the same literal in a branch that is not taken and again after it (seeds C10e / C16e: a wide literal materialised
+            # once per function, at its textually first occurrence)
+            top.append("fn t%d(early: bool) -> %s {\n  if early {\n    return %s;\n  }\n  let x: %s = %s;\n  return x;\n}" % (j, t, l, t, l))
+            body.append("  io::Println(t%d(false));" % j)
+        elif c["pos"] == "let":
             body.append("  let x%d: %s = %s;\n  io::Println(x%d);" % (j, t, l, j))
         elif c["pos"] == "arg":
             top.append("fn a%d(p: %s) -> %s {\n  return p;\n}" % (j, t, t))
@@ -386,6 +391,9 @@ def main(run):
         near = [c for c in runnable if min(abs(c["v"] - lo(c["t"])), abs(c["v"] - hi(c["t"]))) <= 3 or c.get("lead") or c.get("corpus") or c.get("limb")]
         rest = [c for c in runnable if c not in near]
         runnable = near + run.rng.sample(rest, min(len(rest), 160))
+    for i, c in enumerate(runnable):
+        if c["pos"] == "let" and i % 3 == 1: c["twice"] = True
+    run.count("value-literal-twice-in-function", sum(1 for c in runnable if c.get("twice")))
     groups = [runnable[i:i + 20] for i in range(0, len(runnable), 20)]
     def do_group(gi):
         g = groups[gi]
